@@ -12,7 +12,7 @@ from checks._exec import run_exec, sample
 def run(tier, rep):
     rng = random.Random(seed())
     q = tier == "quick"
-    st = sample(families.gen_st, rng, 50 if q else 500) + sample(families.gen_st_affine, rng, 20 if q else 150)
+    st = sample(families.gen_st, rng, 50 if q else 500) + sample(families.gen_st_affine, rng, 20 if q else 150) + sample(families.gen_st_flat, rng, 20 if q else 150) + families.st_flat_core()[:: 2 if q else 1]
     plain = [dict(sp, yaml=sp["no_st_yaml"], family="spacetime-removed", key=sp["key"] + "#plain") for sp in st]
     acc = [dict(sp, family=sp["family"] + "-spacetime") for sp in families.accel_specs(stripped=False, names=["sigma", "outerspace", "gamma"])]
     for sp in acc:
